@@ -25,7 +25,7 @@ class PathEnd(Exception):
 
 
 class Obligation:
-    __slots__ = ("name", "kind", "status", "model", "where", "path", "solver", "secs", "smt2", "detail", "bounded")
+    __slots__ = ("name", "kind", "status", "model", "where", "path", "solver", "secs", "smt2", "detail", "bounded", "z3model", "native", "goal")
 
     def __init__(self, name, kind, where, path):
         self.name = name
@@ -39,6 +39,9 @@ class Obligation:
         self.smt2 = None
         self.detail = None
         self.bounded = None
+        self.z3model = None
+        self.native = None
+        self.goal = None
 
     def to_json(self):
         return {
@@ -52,6 +55,7 @@ class Obligation:
             "secs": round(self.secs, 4),
             "detail": self.detail,
             "bounded": self.bounded,
+            "native_replay": self.native,
         }
 
 
@@ -317,7 +321,8 @@ class Ctx:
                 ob.status, ob.solver = "discharged", "z3"
             elif r == z3.sat:
                 ob.status, ob.solver = "refuted", "z3"
-                ob.model = model_to_json(s.model())
+                ob.z3model = s.model()
+                ob.model = model_to_json(ob.z3model)
             else:
                 ob.status, ob.solver = "unknown", "z3"
             s.pop()
@@ -341,10 +346,13 @@ class Ctx:
                 if m is not None:
                     ob.status, ob.solver = "refuted", m[0]
                     ob.model = m[1]
+                    ob.z3model = m[2]
             s.set("timeout", self.ex.feas_timeout_ms)
             if ob.status == "unknown" and self.ex.on_unknown is not None:
                 self.ex.on_unknown(ob)
         ob.secs = time.time() - t0
+        if ob.status == "refuted" and ob.z3model is None and isinstance(ob.model, dict):
+            ob.z3model = self.model_from_hints(goal, ob.model)
         if ob.status != "discharged" and os.environ.get("PYVC_DEBUG"):
             import sys as _sys
 
@@ -354,7 +362,47 @@ class Ctx:
             print("  MODEL", str(ob.model)[:1500], file=_sys.stderr)
         self.ex.solver_secs += ob.secs
         self.ex.obligations.append(ob)
+        self.last_ob = ob
         return ob.status == "discharged"
+
+    def model_from_hints(self, goal, hints):
+        """a z3 model of (pc and not goal) that agrees with the scalar values another solver found"""
+        try:
+            decls = {}
+            for f in self.pc_raw + [goal]:
+                work = [f]
+                seen = set()
+                while work:
+                    x = work.pop()
+                    i = x.get_id()
+                    if i in seen:
+                        continue
+                    seen.add(i)
+                    if z3.is_quantifier(x):
+                        work.append(x.body())
+                    elif z3.is_app(x):
+                        if x.decl().kind() == z3.Z3_OP_UNINTERPRETED and x.num_args() == 0:
+                            decls[x.decl().name()] = x
+                        work.extend(x.children())
+            s = z3.Solver()
+            s.set("timeout", 5000)
+            s.add(self.pc_raw)
+            s.add(z3.Not(goal))
+            for name, val in hints.items():
+                c = decls.get(name)
+                if c is None:
+                    continue
+                if isinstance(val, bool) and z3.is_bool(c):
+                    s.add(c == val)
+                elif isinstance(val, int) and not isinstance(val, bool) and z3.is_int(c):
+                    s.add(c == val)
+                elif isinstance(val, str) and c.sort() == z3.StringSort():
+                    s.add(c == z3.StringVal(val))
+            if s.check() == z3.sat:
+                return s.model()
+        except Exception:
+            return None
+        return None
 
     def cover(self, name):
         """record that this point is reachable (vacuity guard)"""
@@ -462,7 +510,7 @@ def bounded_refutation(pc_raw, goal, timeout_ms, k=2):
         s.add(bounds)
         r = s.check()
         if r == z3.sat:
-            return "z3(bounded-instance)", model_to_json(s.model())
+            return "z3(bounded-instance)", model_to_json(s.model()), s.model()
         if r == z3.unknown:
             from .solve import cvc5_check
 
@@ -470,7 +518,7 @@ def bounded_refutation(pc_raw, goal, timeout_ms, k=2):
             if r2 == "sat":
                 from .solve import LAST_MODEL
 
-                return "cvc5(bounded-instance)", LAST_MODEL[0]
+                return "cvc5(bounded-instance)", LAST_MODEL[0], None
     except Exception:
         return None
     return None
